@@ -85,6 +85,9 @@ func (r *verifReport) addCase(prop, sig, detail string, c interface{}) {
 	for _, v := range r.Violations {
 		if v.Sig == sig {
 			v.Count++
+			if len(v.More) < 8 {
+				v.More = append(v.More, detail)
+			}
 			return
 		}
 	}
@@ -201,6 +204,10 @@ func (r *verifReport) finish() int {
 		b, _ := json.MarshalIndent(v, "", " ")
 		_ = os.WriteFile(file, b, 0o644)
 		fmt.Printf("  finding: %s\n    %s\n    sys: %s seed: %d\n    path: %s\n", v.Sig, v.Detail, v.Sys, v.Seed, verifPathString(v.Path))
+		for _, m := range v.More {
+			fmt.Printf("    also: %s\n", m)
+		}
+		fmt.Printf("    (%d occurrence(s))\n", v.Count)
 		fmt.Printf("VIOLATION property=%s replay=%s\n", r.Prop, file)
 	}
 	r.writeEvidence(nviol, knownSeen)
